@@ -317,6 +317,8 @@ func runCases(path string, out *bufio.Writer) error {
 				res = doCache(doc.Unesc(fl[6]))
 			case "regex":
 				res = doRegex(doc.Unesc(fl[6]))
+			case "regexdoc":
+				res = doRegexDoc(doc.Unesc(fl[6]))
 			case "hash":
 				d := docs[fl[3]]
 				ctx, _ := doc.ParseAddr(d.root, fl[4])
